@@ -288,6 +288,7 @@ func (hubHarness) Run(spec any) (res verifsim.RunResult) {
 	}
 	var s *verifsim.Sched
 	var bubblePanic string
+	deadlocked := false
 	func() {
 		defer func() {
 			if r := recover(); r != nil {
@@ -488,6 +489,7 @@ func (hubHarness) Run(spec any) (res verifsim.RunResult) {
 			mu.Lock()
 			defer mu.Unlock()
 			if outcome != verifsim.Finished {
+				deadlocked = true
 				sig := "hub:" + sitesOf(blocked)
 				if lockHeld {
 					sig = "hub-lock-held-forever"
@@ -548,7 +550,11 @@ func (hubHarness) Run(spec any) (res verifsim.RunResult) {
 	verifsim.S = nil
 	if bubblePanic != "" {
 		if strings.Contains(bubblePanic, "deadlock: main bubble goroutine has exited") {
-			addV("goroutine-leak", "hub-writer", "goroutines still blocked when the run ended: "+firstLine(bubblePanic))
+			// after a reported deadlock the goroutines it left behind are a consequence, and
+			// whether the teardown gets them to end is not the scheduler's to decide
+			if !deadlocked {
+				addV("goroutine-leak", "hub-writer", "goroutines still blocked when the run ended: "+firstLine(bubblePanic))
+			}
 		} else {
 			addV("panic", "bubble:"+firstLine(bubblePanic), bubblePanic)
 		}
